@@ -685,8 +685,11 @@ func runC09(c *Ctx) {
 		for _, ret := range core.Returns(set) {
 			if b, isB := core.ConstBool(ret.Results[0]); isB && !b {
 				dirty := ""
+				// paths on which the tests of the immutable configuration flags
+				// (C10.conf-immutable) disagree with each other do not exist
+				fs := core.Facts(set)
 				for _, a := range ci.guardedAccesses(set) {
-					if a.write && core.MayFollow(a.in, ret) {
+					if a.write && core.FeasibleFollow(fs, a.in, ret, confFlagAtom) {
 						dirty = a.what + " at " + c.ipos(a.in)
 					}
 				}
@@ -832,6 +835,27 @@ func c09Pairing(c *Ctx, ci *cacheInfo, set, get, del *ssa.Function) {
 					okRef = true
 				}
 			}
+			if !okRef {
+				// or: the refusal sits at the top of the loop body, so that every
+				// effect of the loop runs with LRU known to be on
+				fs := core.Facts(set)
+				body := core.LoopBody(h)
+				n, all := 0, true
+				for _, a := range ci.guardedAccesses(set) {
+					if !a.write || !body[a.in.Block()] {
+						continue
+					}
+					n++
+					on := false
+					for _, f := range fs.At(a.in.Block()) {
+						if name, pos, ok := confFlagAtom(f.Cond); ok && name == "EnableLRU" && f.Truth == pos {
+							on = true
+						}
+					}
+					all = all && on
+				}
+				okRef = n > 0 && all
+			}
 			c.check(okRef, "C09.refusal-pure", set, "without LRU a Set that does not fit returns false before the eviction loop", h.Instrs[0],
 				"with LRU off the usage list is empty: entering the eviction loop dereferences the list sentinel as an item")
 		}
@@ -968,6 +992,18 @@ func paramKeyString(fn *ssa.Function) ssa.Value {
 		}
 	})
 	return out
+}
+
+// confFlagAtom: the condition is c.conf.<flag> or its negation.
+func confFlagAtom(cond ssa.Value) (string, bool, bool) {
+	v, truth := core.StripNot(cond, true)
+	p := core.PathOf(v)
+	if len(p.Fields) == 2 && p.Fields[0] == "conf" {
+		if _, isBool := v.Type().Underlying().(*types.Basic); isBool {
+			return p.Fields[1], truth, true
+		}
+	}
+	return "", false, false
 }
 
 func guardedByConfFlag(in ssa.Instruction, flag string, want bool) bool {
@@ -1559,7 +1595,7 @@ func c09SetDecision(c *Ctx, set *ssa.Function) {
 // far), have exactly the effect of a circular doubly linked list with a
 // sentinel: the final heap of each helper equals the expected one.
 func c09ListOps(c *Ctx) {
-	c.L.Floor("C09.list-ops", 6)
+	c.L.Floor("C09.list-ops", 5)
 	type cellK struct{ obj, field string }
 	var eval func(f *ssa.Function, args []string, heap map[cellK]string, depth int) (string, string)
 	eval = func(f *ssa.Function, args []string, heap map[cellK]string, depth int) (ret string, why string) {
@@ -1639,8 +1675,13 @@ func c09ListOps(c *Ctx) {
 		{"listAppend", map[cellK]string{{"p0", "next"}: "p1.next", {"p1.next", "prev"}: "p0", {"p1", "next"}: "p0", {"p0", "prev"}: "p1"}, ""},
 	}
 	for _, sp := range specs {
-		f := c.fn("cache", sp.name)
-		if f == nil {
+		f := c.P.Func("cache", sp.name)
+		if sp.name == "listLink2" && (f == nil || len(f.Blocks) == 0) {
+			// a pure helper of listUnlink / listAppend: their own effect is
+			// evaluated with or without it
+			continue
+		}
+		if f = c.fn("cache", sp.name); f == nil {
 			continue
 		}
 		args := []string{"p0", "p1"}[:len(f.Params)]
